@@ -122,9 +122,15 @@ def episode_job(job_id, spec, variant, n, B, mode, source_filter=None, nsteps=No
     ctx.assumptions.add("every action is admitted by the advertised mask of its row (nothing else is assumed about actions)")
     ctx.assumptions.add("floats are mathematical reals; Euclidean norm is an uninterpreted function with sound linear axioms (unsat is sound)")
     EV.MARGIN[0] = MARGIN_VAR
+    from symtorch import scalar as SC
 
     def harness():
         E.assume(MARGIN_VAR >= 0)
+        if getattr(sp, "opaque_mul", False):
+            SC.OPAQUE_MUL[0] = True  # symbolic*symbolic products (weight * tardiness) are an opaque commutative function on both sides
+            _x, _y = z3.Reals("x!c y!c")
+            E.assume(z3.ForAll([_x, _y], SC._MULC(_x, _y) == SC._MULC(_y, _x)))
+            ctx.stubs.add("symbolic*symbolic products: commutative uninterpreted function (same on the environment and oracle side)")
         src = EV.Src(E, ctx)
         inst = sp.instance(src, B, n, variant)
         td = env.reset(inst.td)
@@ -222,6 +228,7 @@ def episode_job(job_id, spec, variant, n, B, mode, source_filter=None, nsteps=No
         return ctx.result(E, w, status="inconclusive", error=str(e))
     finally:
         EV.MARGIN[0] = 0.0
+        SC.OPAQUE_MUL[0] = False
     if not ctx.witness and not ctx.cex:
         return ctx.result(E, w, status="error", error="vacuous harness: no complete path is satisfiable")
     return ctx.result(E, w)
